@@ -399,6 +399,7 @@ def oracle(line, out, want=("C04", "C05", "C06", "C07")):
     padded = not (flags & F_NOALIGN)
     cur_cap, cur_len, appended, outstanding, last_built = None, 0, [], {}, None
     reserved_appended = False
+    built_by = None
     validated = {}
     for op, g in zip(ops, groups):
         name = op[0]
@@ -414,6 +415,7 @@ def oracle(line, out, want=("C04", "C05", "C06", "C07")):
                     return "vectored pre-check says %d for split %s but %d for the contiguous bytes" % (got, [len(p) for p in parts], exp)
         elif name in ("IR", "II", "IS", "IE"):
             reserved_appended = False
+            built_by = name
             cur_cap = int(op[2] if name in ("IR", "II") else op[1]); appended = []; cur_len = None   # init may add SOFTWARE / ERROR-CODE
             if g[0] == "i=1" and cur_cap < 20 and "C07" in want:
                 return "message initialised in a %d-byte buffer" % cur_cap
@@ -436,6 +438,22 @@ def oracle(line, out, want=("C04", "C05", "C06", "C07")):
                 p = parse(b, not padded)
                 if p is None:
                     return "finished message is not well-formed per the independent parser: %s" % hexs[:120]
+            if n and ("C04" in want or "C07" in want) and op[1] not in ("n", "e") and not reserved_appended and built_by == "IR":
+                # a request the library finished with a key carries the MESSAGE-INTEGRITY that key (long-term: md5 of ITS OWN
+                # USERNAME:REALM:password) gives over the RFC prefix
+                p = parse(b, not padded)
+                if p:
+                    mi = spec_find(p[3], A_MI, compat); u = spec_find(p[3], A_USERNAME, compat); r_ = spec_find(p[3], A_REALM, compat)
+                    key = unhx(op[1])
+                    ok_to_check = mi is not None and mi[1] == 20 and len(key) > 0
+                    if ok_to_check and flags & F_LONG:
+                        if u and r_ and [t for t, _v, _o in p[3]].count(A_REALM) == 1 and [t for t, _v, _o in p[3]].count(A_USERNAME) == 1:
+                            tr = lambda x: x.lstrip(b'"').rstrip(b'"\x00')
+                            key = hashlib.md5(tr(b[u[0]:u[0] + u[1]]) + b":" + tr(b[r_[0]:r_[0] + r_[1]]) + b":" + tr(key)).digest()
+                        else:
+                            ok_to_check = False
+                    if ok_to_check and b[mi[0]:mi[0] + 20] != expected_mi(b, p[3], mi[0], compat, key):
+                        return "the request the library finished is not signed with the key of its own USERNAME/REALM (MESSAGE-INTEGRITY differs from HMAC-SHA1 over the RFC prefix)"
             if n:
                 last_built = (b, op[1])
                 p = parse(b, not padded)
